@@ -74,6 +74,7 @@ fn main() {
             "signed_bytes" => signed::run(sc),
             "importers" => importers::run(sc),
             "wire" => wire::run(sc),
+            "entry_points" => wire::run_entry_points(sc),
             "statement" => statement::run(sc),
             "statement_doc" => statement::run_doc(sc),
             "record" => record::run(sc),
